@@ -189,3 +189,153 @@ fn c04_serial_ttl_canonical_is_wire_order() {
     assert!((tx == ty) == (x == y));
     kani::cover!(want == Ordering::Less && y.wrapping_sub(x) > 0x8000_0000, "wire order differs from serial arithmetic");
 }
+
+// ------------------------------------------------------------------ names
+use crate::c05::FlatName;
+use domain::base::name::{Name, RelativeName, ToLabelIter, ToName, ToRelativeName};
+
+/// RFC 4034 6.1: compare label sequences from the rightmost (root-adjacent)
+/// label leftwards, each label as a lower-cased octet string, a missing
+/// label sorting first.  Works on flat wire names of at most 3 labels.
+fn ref_name_order(a: &[u8], b: &[u8]) -> Ordering {
+    let mut sa = [0usize; 4];
+    let mut sb = [0usize; 4];
+    let mut na = 0;
+    let mut nb = 0;
+    let mut p = 0;
+    while na < 3 && a[p] != 0 {
+        sa[na] = p;
+        na += 1;
+        p += a[p] as usize + 1;
+    }
+    let mut p = 0;
+    while nb < 3 && b[p] != 0 {
+        sb[nb] = p;
+        nb += 1;
+        p += b[p] as usize + 1;
+    }
+    let mut k = 0;
+    while k < 3 {
+        if k >= na && k >= nb {
+            return Ordering::Equal;
+        }
+        if k >= na {
+            return Ordering::Less;
+        }
+        if k >= nb {
+            return Ordering::Greater;
+        }
+        let (pa, pb) = (sa[na - 1 - k], sb[nb - 1 - k]);
+        let la = &a[pa + 1..pa + 1 + a[pa] as usize];
+        let lb = &b[pb + 1..pb + 1 + b[pb] as usize];
+        match lex_cmp(la, lb, true) {
+            Ordering::Equal => {}
+            o => return o,
+        }
+        k += 1;
+    }
+    Ordering::Equal
+}
+
+fn name_laws<const A1: usize, const A2: usize, const B1: usize, const B2: usize>() {
+    let (fa, fb) = (FlatName::any::<A1, A2>(), FlatName::any::<B1, B2>());
+    let (a, b) = (fa.name(), fb.name());
+    let want = ref_name_order(&fa.w[..fa.n], &fb.w[..fb.n]);
+    assert!(a.name_cmp(&b) == want);
+    assert!(b.name_cmp(&a) == want.reverse());
+    assert!(a.cmp(&b) == want);
+    assert!(a.name_eq(&b) == (want == Ordering::Equal));
+    assert!((a == b) == (want == Ordering::Equal));
+    if a == b {
+        let mut ha = RecHasher::<16>::new();
+        let mut hb = RecHasher::<16>::new();
+        a.hash(&mut ha);
+        b.hash(&mut hb);
+        assert!(ha.same(&hb));
+    }
+    // composed orders = bytewise order of the (lower-cased) wire forms
+    assert!(a.composed_cmp(&b) == lex_cmp(&fa.w[..fa.n], &fb.w[..fb.n], false));
+    let (la, lb) = (fa.lower(), fb.lower());
+    assert!(a.lowercase_composed_cmp(&b) == lex_cmp(&la[..fa.n], &lb[..fb.n], false));
+    kani::cover!(want == Ordering::Equal && fa.w != fb.w, "equal names differing in case");
+}
+
+// @funcs: ToName::{name_cmp,name_eq,composed_cmp,lowercase_composed_cmp}, <Name as Ord/PartialEq/Hash>, NameIter::next_back
+// @bound: two flat names with label structures (2,1) and (2,1), all label octets symbolic: order = RFC 4034 6.1 reference, consistent with ==, antisymmetric, equal => same hash stream, composed orders = bytewise order of wire forms
+// @outside: names of more than two labels
+#[kani::proof]
+#[kani::unwind(10)]
+fn c04_name_laws_21_21() {
+    name_laws::<2, 1, 2, 1>()
+}
+
+// @covers: optional
+// @funcs: ToName::{name_cmp,name_eq}, Name::cmp
+// @bound: label structures (1,1) versus (2,0): different label boundaries over the same number of octets (the a.b versus a\\.b situation), all octets symbolic
+#[kani::proof]
+#[kani::unwind(10)]
+fn c04_name_laws_11_20() {
+    name_laws::<1, 1, 2, 0>()
+}
+
+// @funcs: Chain<RelativeName,Name>::{iter_labels,name_eq,name_cmp}, RelativeName::chain, ToName for Chain
+// @bound: name (2,1) stored flat versus the same octets stored as chain(relative first label, absolute rest), compared against a second flat name (1,1): equality, order and hash stream do not depend on the representation
+#[kani::proof]
+#[kani::unwind(10)]
+fn c04_name_representation_independent() {
+    let (fa, fb) = (FlatName::any::<2, 1>(), FlatName::any::<1, 1>());
+    let flat = fa.name();
+    let rel = RelativeName::from_slice(&fa.w[..3]).unwrap();
+    let rest = Name::from_slice(&fa.w[3..fa.n]).unwrap();
+    let chain = rel.chain(rest).unwrap();
+    let other = fb.name();
+    assert!(chain.name_eq(&flat) && flat.name_eq(&chain));
+    assert!(chain.name_cmp(&flat) == Ordering::Equal);
+    assert!(chain.name_cmp(&other) == flat.name_cmp(&other));
+    assert!(other.name_cmp(&chain) == other.name_cmp(&flat));
+    assert!(chain.name_eq(&other) == flat.name_eq(&other));
+    assert!(chain.compose_len() == flat.compose_len());
+    // Chain has no Hash impl of its own; its labels are what a hasher would see
+    let mut hc = RecHasher::<16>::new();
+    let mut hf = RecHasher::<16>::new();
+    for l in chain.iter_labels() {
+        l.hash(&mut hc);
+    }
+    flat.hash(&mut hf);
+    assert!(hc.same(&hf));
+}
+
+// ---------------------------------------------------------------- records
+use domain::base::iana::Class;
+use domain::base::Record;
+use domain::rdata::A;
+
+// @funcs: <Record as PartialEq>::eq, <Record as Hash>::hash, <Record as CanonicalOrd>::canonical_cmp, <A as CanonicalOrd>
+// @bound: two A records with one-label owners (symbolic octet), symbolic class, TTL and address: equal records feed identical octets to the hasher; canonical order = (class, owner in canonical name order, type, RDATA octets)
+#[kani::proof]
+#[kani::unwind(16)]
+fn c04_record_eq_hash_canonical() {
+    let (fa, fb) = (FlatName::any::<1, 0>(), FlatName::any::<1, 0>());
+    let (c1, c2, t1, t2): (u16, u16, u32, u32) = (kani::any(), kani::any(), kani::any(), kani::any());
+    let (a1, a2): ([u8; 4], [u8; 4]) = (kani::any(), kani::any());
+    let r1 = Record::new(fa.name(), Class::from_int(c1), Ttl::from_secs(t1), A::from_octets(a1[0], a1[1], a1[2], a1[3]));
+    let r2 = Record::new(fb.name(), Class::from_int(c2), Ttl::from_secs(t2), A::from_octets(a2[0], a2[1], a2[2], a2[3]));
+    let same = lc(fa.w[1]) == lc(fb.w[1]) && c1 == c2 && a1 == a2;
+    assert!((r1 == r2) == same);
+    if r1 == r2 {
+        let mut h1 = RecHasher::<24>::new();
+        let mut h2 = RecHasher::<24>::new();
+        r1.hash(&mut h1);
+        r2.hash(&mut h2);
+        assert!(h1.same(&h2));
+    }
+    let want = match c1.cmp(&c2) {
+        Ordering::Equal => match lc(fa.w[1]).cmp(&lc(fb.w[1])) {
+            Ordering::Equal => lex_cmp(&a1, &a2, false),
+            o => o,
+        },
+        o => o,
+    };
+    assert!(r1.canonical_cmp(&r2) == want);
+    kani::cover!(r1 == r2 && t1 != t2, "equal records with different TTLs");
+}
